@@ -275,7 +275,8 @@ def cases(draw: Any, tier: str) -> Dict[str, Any]:
     exhaustive = draw(st.integers(0, 11)) == 0
     P = draw(gen.flat_prog(min_sites=3, max_sites=4 if exhaustive else 8, max_deps=3, resources=gen.RES, reuse=not exhaustive,
                            n_setup=draw(st.integers(0, 2)), mark_roots=False, prio_range=(-1, 2),
-                           index_rate=0.3, dep_kinds=("pos", "kw"), short_name_rate=0.2, ret_index_rate=0.4))
+                           index_rate=0.3, dep_kinds=("pos", "kw"), short_name_rate=0.2, ret_index_rate=0.4,
+                           many_args_rate=0.0 if exhaustive else 0.04))
     sites = [s["site"] for s in P["body"]]
     case: Dict[str, Any] = {"prog": P, "mc": draw(st.integers(1, 3)), "pre_setup": draw(st.booleans()),
                             "async": draw(st.sampled_from([False, False, True]))}
